@@ -105,12 +105,15 @@ class C17(Check):
     level_text = ("Theorems (all histories, unbounded): ports_refine / ports_by_attr — after any features reply and any sequence of ADD/MODIFY/DELETE notifications every view of con.ports "
                   "(by number, name, address, keys/iteration, len, membership, values, items) is that of the abstract map 'reported ports with the notifications folded in order', and original_ports "
                   "is the features reply unchanged; readd_deleted, renamed_unreachable; stats_refine / stats_once / stats_no_merge — for any stream of statistics parts of any number of requests "
-                  "interleaved in any way, each request's event fires exactly once, at its final part, with exactly its own parts' entries in order; stats_never_raises; other_messages_frame. "
+                  "interleaved in any way, each request's event fires exactly once, at its final part, with exactly its own parts' entries in order (a request is the pair (xid, type): stats_two_requests); stats_never_raises; "
+                  "other_messages_frame; raw_event_exactly_for_stats. Phase 2: views_consistent (len/iter/membership/get/has_key/values/items agree in ANY state), copy_same_view, status_unknown_reason, features_restarts, handshake_defers_in_order. "
                   "The models mirror the code WITH the repairs D17 and D18; legacy_*_defect theorems are decide-witnesses that the unrepaired lookups / assembly violate the statements. "
                   "Each run re-checks the models against the real code (bytes through Connection.read, default handler table, real decoders) and evaluates an independent oracle on the real code's observables.")
     level_note = ("Trusted: Lean kernel, standard axioms, the hand-written Model/PortView.lean and Model/StatsAgg.lean (tied to the code only by this differential run), Spec/PortStats.lean, this harness. "
                   "Python set iteration order is not modelled: lookups by name/address among several matching ports accept any admissible result (the observed choice is fed to the model). "
-                  "The handshake (hello / features reply / barrier reply, deferral of early port statuses) is exercised but not modelled. Decoders are C01's business: entries are opaque to the model.")
+                  "The handshake's treatment of port statuses (dropped before the features reply, deferred and replayed in order after it) is modelled (hsStep/hsFinish, theorem handshake_defers_in_order); the rest of the handshake "
+                  "(hello, version check, nexus lookup, barrier) is exercised only. PortCollection.copy() is modelled with its `return r` (fixes/C17_portcollection_copy_return.diff); on a tree where copy() returns None it is neither compared nor judged. "
+                  "Anchored def/class-body lines are counted as covered from a tracer that watches the import of the two modules. Decoders are C01's business: entries are opaque to the model.")
     trusted_base = ["models Model/PortView.lean, Model/StatsAgg.lean hand-written from of_01.py (with fixes D17, D18); tied by this correspondence run",
                     "Spec/PortStats.lean (abstract port map; per-request reply assembly) read against OpenFlow 1.0 §5.3.5, §5.4.3",
                     "a Python set is modelled as a list read only through first-match/filter/membership; iteration order is an oracle input for name/address lookups"]
@@ -119,7 +122,7 @@ class C17(Check):
                    "only the four list-valued statistics types are sent with REPLY_MORE (others: the code discards them by design; compared with the model, not judged by the oracle)",
                    "entry decoding/encoding is exact for the generated entries (C01); entries that do not re-pack to their own bytes are not generated"]
     rule = ("case = one connection history on bytes: features reply (0-4 ports), optional early port statuses, then up to 14 messages among port status (3 reasons x 4 numbers x 3 names x 2 addresses x 2 configs), "
-            "second features reply, statistics parts (6 types, bodies 0..12 entries cut into 1..6 parts, up to 3 requests interleaved), 9 other message kinds; corpus = D17/D18 witnesses, all port-status "
+            "second features reply, statistics parts (6 types, bodies 0..12 entries cut into 1..6 parts, up to 3 requests interleaved, same type/other xid and same xid/other type), 9 other message kinds, port statuses before the features reply; corpus = D17/D18 witnesses, all port-status "
             "sequences to length 3 (quick) / 4 (thorough) over a 2x2x2 scope, all partitions of short bodies; non-trivial = a port message changed a view or a reply had >=2 parts or requests overlapped")
     coverage_cases = 10 ** 6          # every case runs under the line tracer
     _import_counted = ()
@@ -385,7 +388,7 @@ class C17(Check):
         return {"features": feat, "pre": pre, "early": early, "msgs": msgs, "q": Q_FULL}
 
     def generate(self, rng, tier):
-        n = 2400 if tier == "quick" else 30000
+        n = 1800 if tier == "quick" else 16000
         for i in range(n):
             yield self._case(rng, "ports" if i % 2 == 0 else ("stats" if i % 10 != 9 else "weird"))
         if tier == "thorough":
@@ -480,7 +483,7 @@ class C17(Check):
         stats = ev.stats if isinstance(ev.stats, list) else [ev.stats]
         parts = ev.ofp if isinstance(ev.ofp, list) else [ev.ofp]
         o = {"cls": type(ev).__name__, "stats": [(s.pack() if hasattr(s, "pack") else bytes(s)).hex() for s in stats],
-             "xids": [p.xid for p in parts], "listlike": isinstance(ev.stats, list)}
+             "xids": [p.xid for p in parts], "listlike": isinstance(ev.stats, list), "ofp_listlike": isinstance(ev.ofp, list)}
         if ev.dpid != ev.connection.dpid or ev.connection is not self._cur: o["dpid"] = ev.dpid
         return o
 
@@ -695,6 +698,8 @@ class C17(Check):
                             ctx, m["xid"], m["type"], i, len(parts), (" [" + o["exc"][0] + "]") if o.get("exc") else "")
                     if len(evs) > 1: return "stats:%s:duplicate: message %d raised %d events" % (ctx, i, len(evs))
                     e = evs[0]
+                    if e["listlike"] != (m["type"] in MULTIPART) or e.get("ofp_listlike") != (m["type"] in MULTIPART):
+                        return "stats:%s:wrong-shape: type %d event has .stats %s, .ofp %s" % (ctx, m["type"], "list" if e["listlike"] else "object", "list" if e.get("ofp_listlike") else "message")
                     if STATS_EVENTS.get(e["cls"]) != m["type"]: return "stats:%s:wrong-class: type %d raised %s" % (ctx, m["type"], e["cls"])
                     if e["stats"] != want_stats:
                         kind = "merged" if len(e["stats"]) > len(want_stats) else ("truncated" if len(e["stats"]) < len(want_stats) else "reordered")
